@@ -168,6 +168,11 @@ class Ops:
             if 'nsw' in flags:
                 self.ub_nsw(st, ins, x, y, 'add')
             res = self.fit(st, w, r, 'addw', ('addw', x.a, y.a, w))
+            if res.a is not r and res.a.single() and st.syminfo.get(res.a.single()[0]) is not None and \
+                    st.syminfo[res.a.single()[0]].defn is not None:
+                # a modular sum never exceeds the mathematical sum and is at most 2^w below it
+                st.store.assume_ge0(r.sub(res.a), propagate=False)
+                st.store.assume_ge0(res.a.sub(r).add(1 << w), propagate=False)
             if res.a is not r and (1 << w) > 0:
                 # y may be a "negative" constant (x + (2^w - k)) == x - k
                 cy = S.const_of(y.a)
